@@ -143,7 +143,7 @@ Proof.
   induction l as [|x l IH]; intros acc Ha; cbn [fold_left].
   - split; [exact Ha|]. intros y; cbn; tauto.
   - destruct (IH (insL x acc) (insL_sorted x acc Ha)) as [H1 H2]. split; [exact H1|].
-    intros y. rewrite H2, insL_In. cbn. tauto.
+    intros y. rewrite H2, insL_In. cbn. intuition congruence.
 Qed.
 Lemma sortL_sorted l : StronglySorted N.le (sortL l).
 Proof. apply sortL_gen. constructor. Qed.
@@ -183,7 +183,7 @@ Lemma sort_names_gen l : forall acc y,
   In y (fold_left (fun acc x => insert_name x acc) l acc) <-> In y acc \/ In y l.
 Proof.
   induction l as [|x l IH]; intros acc y; cbn [fold_left]; [cbn; tauto|].
-  rewrite IH, insert_name_In. cbn. tauto.
+  rewrite IH, insert_name_In. cbn. intuition congruence.
 Qed.
 Lemma sort_names_In l y : In y (sort_names l) <-> In y l.
 Proof. unfold sort_names. rewrite sort_names_gen. cbn. tauto. Qed.
@@ -313,7 +313,7 @@ Section Canon.
     - split; [exact Ha|]. split; [intros y; cbn; tauto|]. intros k. rewrite app_nil_r. reflexivity.
     - destruct (IH (insN x acc) (insN_sorted x acc Ha)) as (H1 & H2 & H3).
       split; [exact H1|]. split.
-      + intros y. rewrite H2, insN_In. cbn. tauto.
+      + intros y. rewrite H2, insN_In. cbn. intuition congruence.
       + intros k. rewrite H3, (insN_exps k x acc Ha), <- app_assoc.
         change (x :: l) with ([x] ++ l). rewrite (exps_of_app k [x] l). reflexivity.
   Qed.
